@@ -89,6 +89,27 @@ fn cmd_wstr(args: &Args) -> String {
         return "bad-args".to_string();
     };
     let b = TomlStringBuilder::new(s);
+    // every other way the crate offers to write this string as a VALUE must give the default style's token
+    {
+        use std::borrow::Cow;
+        use toml_write::TomlWrite as _;
+        let want = b.as_default().to_toml_value();
+        let owned: String = s.to_owned();
+        let mut via_write = String::new();
+        let _ = via_write.value(&owned);
+        let got: Vec<(&str, String)> = vec![
+            ("String", owned.to_toml_value()),
+            ("Cow::Borrowed", Cow::Borrowed(s).to_toml_value()),
+            ("Cow::Owned", Cow::<str>::Owned(owned.clone()).to_toml_value()),
+            ("&String", (&owned).to_toml_value()),
+            ("TomlWrite::value", via_write),
+        ];
+        for (name, g) in got {
+            if g != want {
+                return format!("IMPLDIFF value impl={} wrote={} default-style={}", name, hex(g.as_bytes()), hex(want.as_bytes()));
+            }
+        }
+    }
     let styles: Vec<(&str, Option<String>)> = vec![
         ("default", Some(b.as_default().to_toml_value())),
         ("literal", b.as_literal().map(|t| t.to_toml_value())),
@@ -110,6 +131,34 @@ fn cmd_wkey(args: &Args) -> String {
         return "bad-args".to_string();
     };
     let b = TomlKeyBuilder::new(s);
+    // every other way the crate offers to write this string as a KEY must give the default style's token
+    {
+        use std::borrow::Cow;
+        use toml_write::TomlWrite as _;
+        let want = b.as_default().to_toml_key();
+        let owned: String = s.to_owned();
+        let mut via_write = String::new();
+        let _ = via_write.key(&owned);
+        let mut one = std::collections::BTreeMap::new();
+        one.insert(Cow::<str>::Owned(owned.clone()), 1u8);
+        let got: Vec<(&str, String)> = vec![
+            ("String", owned.to_toml_key()),
+            ("Cow::Borrowed", Cow::Borrowed(s).to_toml_key()),
+            ("Cow::Owned", Cow::<str>::Owned(owned.clone()).to_toml_key()),
+            ("&String", (&owned).to_toml_key()),
+            ("TomlWrite::key", via_write),
+        ];
+        for (name, g) in got {
+            if g != want {
+                return format!("IMPLDIFF key impl={} wrote={} default-style={}", name, hex(g.as_bytes()), hex(want.as_bytes()));
+            }
+        }
+        // a map written as an inline table spells its key the same way
+        let inl = one.to_toml_value();
+        if !inl.contains(want.as_str()) {
+            return format!("IMPLDIFF key impl=BTreeMap<Cow<str>,_> wrote={} default-style={}", hex(inl.as_bytes()), hex(want.as_bytes()));
+        }
+    }
     let styles: Vec<(&str, Option<String>)> = vec![
         ("default", Some(b.as_default().to_toml_key())),
         ("unquoted", b.as_unquoted().map(|t| t.to_toml_key())),
